@@ -36,14 +36,19 @@ static void wf_lu_check(int n, SuperMatrix *L, SuperMatrix *U, const int_t *perm
         int nsupc = e - f, sb = Ls->rowind_colbeg[f], se = Ls->rowind_colend[f], nsupr = se - sb;
         vh_assert(f == next && e > f && e <= n, "supernodes are consecutive column ranges in index order");
         next = e;
-        vh_assert(sb >= prev_end_sub && se >= sb, "row-subscript extents ordered and disjoint");
+        vh_assert(sb >= 0 && se >= sb, "row-subscript extent well-formed");
+        for (q = 0; q < s; ++q) {
+            int f2 = Ls->sup_to_colbeg[q];
+            vh_assert(Ls->rowind_colend[f2] <= sb || se <= Ls->rowind_colbeg[f2], "row-subscript extents do not overlap");
+        }
         prev_end_sub = se;
         vh_assert(nsupr >= nsupc, "supernode has at least its own rows");
         for (j = f; j < e; ++j) {
             vh_assert(Ls->col_to_sup[j] == s, "col_to_sup consistent with sup_to_col");
             vh_assert(Ls->nzval_colend[j] - Ls->nzval_colbeg[j] == nsupr, "value extent = supernode rows");
-            vh_assert(Ls->nzval_colbeg[j] > prev_end_val || prev_end_val < 0 || Ls->nzval_colbeg[j] >= prev_end_val,
-                      "value extents do not overlap");
+            for (q = 0; q < j; ++q)
+                vh_assert(Ls->nzval_colend[q] <= Ls->nzval_colbeg[j] || Ls->nzval_colend[j] <= Ls->nzval_colbeg[q],
+                          "value extents do not overlap");
             vh_assert(Ls->nzval_colbeg[j] >= 0, "value extent inside array");
             if (j > f) vh_assert(Ls->nzval_colbeg[j] == Ls->nzval_colend[j - 1], "columns of a supernode are adjacent");
             prev_end_val = Ls->nzval_colend[j];
